@@ -6,6 +6,7 @@ mod law;
 mod model;
 mod props;
 mod report;
+mod sched;
 mod target;
 mod util;
 mod vrlx;
@@ -21,11 +22,14 @@ fn registry() -> Vec<(&'static str, RunFn, ReplayFn)> {
     vec![
         ("C10", props::ops::run_c10 as RunFn, props::ops::replay as ReplayFn),
         ("C11", props::ops::run_c11, props::ops::replay),
+        ("C17", props::c17::run_c17, props::c17::replay),
         ("C18", props::c18::run, props::c18::replay),
         ("C19", props::c19::run, props::c19::replay),
         ("C01", props::pm::run_c01, props::pm::replay),
         ("C02", props::pm::run_c02, props::pm::replay),
         ("C12", props::pm::run_c12, props::pm::replay),
+        ("C14", props::c14::run, props::c14::replay),
+        ("C15", props::c15::run, props::c15::replay),
         ("C16", props::pm::run_c16, props::pm::replay),
         ("C20", props::c20::run, props::c20::replay),
         ("C21", props::c21::run, props::c21::replay),
@@ -174,6 +178,9 @@ fn main() {
             }
         }
         "worker" => {
+            if args.get(2).map(String::as_str) == Some("c14digest") && args.len() >= 4 {
+                std::process::exit(props::c14::worker_main(&args[3..]));
+            }
             if args.get(2).map(String::as_str) == Some("sweep") && args.len() >= 7 {
                 std::process::exit(props::sweep::worker_main(&args[3..]));
             }
